@@ -12,7 +12,7 @@ CONSTANTS
   NTriple = 70
   HookMod = 1
   SecondMod = 1
-  NRand = 60
+  NRand = 120
   Waits <- WaitsThorough
   LongWaits <- LongThorough
   Idles <- IdlesThorough
